@@ -105,6 +105,16 @@ def run_case(case: dict) -> CaseResult:
     def then(sess: Session):
         conn = sess.conn
         tr = sess.dsess.transport
+        rest = b""
+        if case.get("partial_in"):
+            # the peer's last chunk ended in the middle of a frame (after `lead` complete ones): what the application
+            # sends meanwhile is written at once all the same
+            lead, k = case["partial_in"]
+            frames = [sess.dsess.encode(pb.SensorStateResponse(key=i + 1, state=1.5)) for i in range(int(lead) + 1)]
+            cut = max(1, min(len(frames[-1]) - 1, int(k)))
+            tr.feed(b"".join(frames[:-1]) + frames[-1][:cut])
+            rest = frames[-1][cut:]
+            classes_extra.add("sent_while_a_received_frame_is_incomplete")
         for batch in case["batches"]:
             msgs = tuple(pbgen.build(getattr(pb, n), spec) for n, spec in batch)
             n0 = tr.n_writes
@@ -137,6 +147,8 @@ def run_case(case: dict) -> CaseResult:
                     conn.send_messages(msgs)
                     marks.append((tr.n_writes - n0, len(msgs)))
                     expected.extend((idof[type(m)], m.SerializeToString()) for m in msgs)
+        if rest:
+            tr.feed(rest)
         env.log("batches_done")
         env.spawn("final", sess.cli.disconnect(force=True))
 
@@ -189,7 +201,8 @@ def _case(draw, tier):
         batches.append(batch)
     if draw(st.integers(0, 5)) == 2:
         return {"mode": "api", "early": True, "login": draw(st.booleans()), "noise": draw(st.booleans()), "batches": [[b for b in bt if b[0] in names_ok] or [[classes[0].__name__, {}]] for bt in batches]}
-    return {"mode": "api", "noise": draw(st.booleans()), "single_api": draw(st.booleans()), "batches": batches, **({"resend": draw(st.integers(1, 3))} if draw(st.integers(0, 3)) == 0 else {})}
+    return {"mode": "api", "noise": draw(st.booleans()), "single_api": draw(st.booleans()), "batches": batches, **({"resend": draw(st.integers(1, 3))} if draw(st.integers(0, 3)) == 0 else {}),
+            **({"partial_in": [draw(st.integers(0, 2)), draw(st.integers(1, 12))]} if draw(st.integers(0, 2)) == 0 else {})}
 
 
 def strategy(tier):
@@ -206,6 +219,9 @@ def enumerated(tier):
             yield {"mode": "api", "early": True, "noise": noise, "batches": [[[n, {}] for n in names[lo:lo + 2]], [[n, {}]] if False else [[n, {}] for n in names[lo + 2:lo + 8]] or [[names[0], {}]]]}
         keyed = [c.__name__ for c in client_classes() if any(f.name == "key" for f in c.DESCRIPTOR.fields)]
         yield {"mode": "api", "noise": noise, "resend": 2, "batches": [[[n, {"key": 5}]] for n in keyed[:6]] + [[[keyed[0], {"key": 1}], [keyed[1], {"key": 2}]]]}
+        for lead in (0, 1):
+            for k in (1, 2, 3, 5):
+                yield {"mode": "api", "noise": noise, "partial_in": [lead, k], "batches": [[[n, {}]] for n in names[:3]] + [[[n, {}] for n in names[3:6]]]}
         for pos in (0, 1, 2):
             bad = [[n, {}] for n in names[:2]]
             bad.insert(pos, ["BluetoothServiceData", {}])
